@@ -213,7 +213,11 @@ var properties = map[string]*propDef{
 	},
 	"C08": {
 		Level: "exploration",
-		Rule:  "(engine under construction)",
+		Rule:  "a case picks a mode (static / dynamic / http with writer, streamer or iterator flow), the merge option, a channel catalogue and one agreed sequence of key sets; the script mixes upd (one side applies the next agreed key set, key order reversed on the decoder), enc (puts a message in flight), dec (delivers the oldest) and raw/burst operations; each side may run up to 3 updates ahead. Frames cover all 15 data types, empty frames and series, subsets, shuffled and repeated keys, >128 entries, keys outside the set, equal/unequal lengths, zero/equal/distinct time ranges and alignments (all 36 legal flag bytes). Every delivery first presents corrupted copies of the message (every prefix, bit flips, overwritten length fields up to 0xFFFFFFFF, overwritten sequence number or flags, garbage with a plausible header, duplicates, splices, chunked stream reads), then the genuine message, which must still round-trip. non-trivial = >=1 compared frame with an in-set series or >=1 hostile decode",
+		Real:  []string{"core/pkg/distribution/framer/codec (NewStatic, NewDynamic+Update against a real channel service on a mock distribution node, Encode/EncodeStream/Decode/DecodeStream), core/pkg/transport/http/framer.Codec with json.Codec over WSMessage[Writer|Streamer|Iterator Request/Response], x/go/binary, x/go/telem \u2014 real code"},
+		Stub:  []string{"the websocket / freighter transport: messages are byte slices in FIFO queues between the encoder and decoder instances; corrupted JSON requests aimed at the server go to a scratch codec instance"},
+		Assumptions: []string{"round trip: per channel the series in stable alignment order; without merging exact, with merging the normalised lists of maximal contiguous runs are equal; int64 and timestamp are interchangeable; keys outside the set are dropped", "a decoder that is behind must return an error, one that is ahead must decode correctly", "safety: no panic, heap allocation delta <= 1 MiB + 128 x len(input) (runtime/metrics), a frame returned for hostile bytes uses only keys and data types of the state its sequence number selects, whole samples, no more data than the input; length claims above 16 MiB are clamped so the worker survives"},
+		RequiredProbes: []string{"decoder_ahead", "decoder_behind", "frame_beyond_mask", "frame_repeated_key", "frame_subset", "series_variable", "series_empty", "hostile_accepted", "hostile_error", "hostile_claim_beyond_bound", "http_compact_frame", "http_data_before_negotiation", "update_backlog_full"},
 		Units: []unit{{
 			Name: "core-codec", Module: "core", Package: "./pkg/distribution/framer/codec", Passes: []string{"detrange"}, Engines: []string{"c08"},
 			QuickBudget: 25 * time.Second, QuickWorkers: 8, ThoroughBudget: 12 * time.Minute, ThoroughWorkers: 16,
@@ -221,7 +225,11 @@ var properties = map[string]*propDef{
 	},
 	"C14": {
 		Level: "exploration",
-		Rule:  "(engine under construction)",
+		Rule:  "a case has a transport (in-memory mock, WebSocket, gRPC), its configuration (mock: channel capacities 0-11 per direction, stream pair or network; ws: json/msgpack codec, write deadline; net transports: seeded yields on every Read/Write of the in-memory connection), a client script of send(size)/recv/close/drain/pause with optional calls after the end, and a handler script of recv/send(size)/pause followed by return of one of 15 error kinds (nil, EOF, ErrStreamClosed, custom, query.*, control.Unauthorized, validation with and without path, a registered kind whose message contains the separator, unregistered errors); payloads 0 B - 1 MiB incl. 4095/4096/4097 and 65535/65536; a bounded-buffer planner edits the client script so the two scripts cannot deadlock by their own making. Both scripts run as tasks under the seeded scheduler in a synctest bubble. Engines: c14 draws the transport per case; c14-mock/c14-ws/c14-grpc pin one. non-trivial = >=2 messages delivered and the client observed the end of the stream",
+		Real:  []string{"freighter/go/mock (whole), freighter/go/http (real fiber/fasthttp server and websocket client over fasthttputil.InmemoryListener), freighter/go/grpc (real grpc-go server and client with the repository's TestStreamService over bufconn), x/go/errors registry with the real providers \u2014 freighter packages instrumented by the overlay (locks, atomics, channels, selects, timers are yield points)"},
+		Stub:  []string{"only the byte pipe: in-memory listeners replace TCP (the ws client's private dialer is pointed at the listener with reflect/unsafe); grpc-go, fasthttp and the websocket library are not instrumented, their goroutines run freely between scheduler decisions; nothing runs over real sockets; no transport faults, no context cancellation, no ServerStream calls after the handler returned"},
+		Assumptions: []string{"delivery: what a side receives is a prefix of the other side's successful sends, in order, same bytes", "client Receive may only fail after the handler returned, must then match the handler's result (errors.Is for registered kinds, errors.As + path for PathError, message containment for unregistered), every response sent before the return must already have been received, later receives fail the same way", "handler Receive may only fail with EOF, after CloseSend started and after every sent request was received; client Send follows the doc comments of stream.go; CloseSend may fail only after the handler returned"},
+		RequiredProbes: []string{"mock.end_nil", "mock.end_registered_error", "ws.end_nil", "ws.end_registered_error", "grpc.end_nil", "grpc.end_registered_error", "mock.handler_eof_after_requests", "ws.handler_eof_after_requests", "grpc.handler_eof_after_requests", "mock.client_received_data_after_closesend", "ws.payload_64k_or_more", "grpc.payload_64k_or_more", "mock.client_receive_after_end", "grpc.client_receive_after_end"},
 		Units: []unit{{
 			Name: "freighter-stream", Module: "freighter/go", Package: "./test", Passes: allPasses, Engines: []string{"c14", "c14-mock", "c14-ws", "c14-grpc"}, ExtraRoots: []string{"./mock", "./http", "./grpc"},
 			QuickBudget: 25 * time.Second, QuickWorkers: 8, ThoroughBudget: 12 * time.Minute, ThoroughWorkers: 16,
@@ -237,7 +245,11 @@ var properties = map[string]*propDef{
 	},
 	"C16": {
 		Level: "exploration",
-		Rule:  "(engine under construction)",
+		Rule:  "a case is a pool of 3-7 identifiers (70% drawn from identifiers that are string prefixes/suffixes of one another: channel:1, channel:10, channel:11, channel:01, channel:1:0, chan:1, xchannel:1, ...) plus a history of up to ~40 operations: Define/DefineMany/Delete/DeleteMany resource, DefineRelationship, DefineFromOneToManyRelationships, DeleteRelationship, DeleteOutgoing/IncomingRelationshipsOfType over three relationship types, open/commit/abort of transactions (one writer at a time in 75% of cases, overlapping writers otherwise), traversal queries (parents via index and via scan, children via key prefix, a forward traverser of another type; 0-4 hops; inside and outside a transaction; ExcludeFieldData, Limit/Offset, WhereTypes), a white-box descendant walk, HasResource/HasRelationship, close+reopen of the ontology. After every write the raw relationship and resource tables are compared with the model in the writing transaction's view and in the committed view, and traversals are swept for the touched identifiers. non-trivial = >=2 relationships committed, >=1 effective delete, >=1 non-empty traversal",
+		Real:  []string{"core/pkg/distribution/ontology (Open/Close, dagWriter, Retrieve and traversers, relationship indexes with per-transaction deltas), x/go/gorp, x/go/kv/memkv, x/go/observe \u2014 real code, in-package harness"},
+		Stub:  []string{"in-memory services, one per resource type (RetrieveResource always succeeds); no goroutine scheduler (the only goroutine is gorp's index populate at open, which Close waits for)"},
+		Assumptions: []string{"model: a resource set and an edge set with per-transaction overlays merged over the live committed state; a define returns nil if every edge exists, otherwise an error iff an endpoint is missing, from == to, or from is reachable from to over edges of any type; the one-to-many form is all-or-nothing", "traversals are compared as sets against a plain graph search over surviving resources; a traversal starting at a missing resource may return not-found; with Limit the result must be a subset no larger than the limit", "an open transaction whose merged view became cyclic or dangling because another writer committed underneath is frozen (only its commit or abort still runs)"},
+		RequiredProbes: []string{"tx_committed_with_writes", "tx_aborted_with_writes", "tx_several_open", "reopen", "defrel_ok", "defrels_ok", "defrel_noop_existing", "defrel_refused_cycle", "defrel_refused_missing_endpoint", "delres_with_incoming_and_outgoing", "delres_next_to_aliased_identifier_edges", "query_parents_index", "query_parents_scan", "query_children", "query_multi_hop_nonempty", "query_in_tx_differs_from_committed", "shape_diamond", "pool_with_prefix_aliased_identifiers"},
 		Units: []unit{{
 			Name: "core-ontology", Module: "core", Package: "./pkg/distribution/ontology", Passes: []string{"detrange"}, Engines: []string{"c16"},
 			QuickBudget: 25 * time.Second, QuickWorkers: 8, ThoroughBudget: 12 * time.Minute, ThoroughWorkers: 16,
@@ -257,7 +269,11 @@ var properties = map[string]*propDef{
 	},
 	"C18": {
 		Level: "exploration",
-		Rule:  "(engine under construction)",
+		Rule:  "a case is a history of up to ~45 operations over 3 roles, 4 policies (role i and policy i share a UUID), 6 subjects (u1, u10, u2, u defined; u3 definable later; zz never defined), 4 object types incl. channel and chan with keys '' (type-level), 1, 10, 2, and 4 valid actions plus a bogus one: begin/commit/abort of a transaction, create/delete role and policy (creating an existing policy overwrites it), attach policies to a role, assign/unassign role, define a subject, reopen all services, drawn access requests. After every operation, in every view (inside the transaction via NewEnforcer(tx); outside via Service.Enforce and NewEnforcer(nil)), every subject gets a model-derived battery: the largest fully covered request (must be permitted), that request with a near-miss uncovered object inserted, the lone uncovered object, every object only an unreachable policy would grant, the empty request, RetrievePoliciesForSubject vs. the model's policy set, and the last 6 drawn requests. non-trivial = >=1 non-empty permit and >=1 deny",
+		Real:  []string{"core/pkg/service/access/rbac (Service.Enforce, NewEnforcer, RetrievePoliciesForSubject, OpenService incl. builtin provisioning and migration), role and policy writers/retrievers, ontology, group, user, auth and search services, gorp tables with per-transaction index overlays, memkv \u2014 real code"},
+		Stub:  []string{"nothing in the path under test; the user service is opened without root credentials, subjects are bare ontology resources as in the repository's own specs; uuid.SetRand seeded per case"},
+		Assumptions: []string{"model: plain sets subject->roles, role->policies, policy->(actions, objects); a request is permitted exactly when every requested object is covered, by type or by exact identity, by a policy that grants the action and is attached to a role currently assigned to the subject; any non-nil error counts as not permitted", "an empty request from an unknown subject is not judged (the statement both permits it vacuously and denies unknown subjects)", "a deleted role or policy loses its assignments and attachments; a failed operation changes nothing"},
+		RequiredProbes: []string{"permit", "permit_by_type", "permit_by_exact_identity_only", "permit_objects_covered_by_different_policies", "deny_mixed_covered_and_uncovered", "deny_same_type_other_instance", "deny_action_not_granted", "deny_subject_without_policies", "deny_unknown_subject", "commit_with_changes", "abort_with_changes", "tx_view_differs_from_committed_view", "deleted_role_was_assigned", "role_recreated_after_delete", "policy_recreated_after_delete", "reopen"},
 		Units: []unit{{
 			Name: "core-rbac", Module: "core", Package: "./pkg/service/access/rbac", Passes: []string{"detrange"}, Engines: []string{"c18"},
 			QuickBudget: 25 * time.Second, QuickWorkers: 8, ThoroughBudget: 12 * time.Minute, ThoroughWorkers: 16,
